@@ -6,7 +6,7 @@
 #[path = "../lsclient.rs"]
 mod lsclient;
 use harper_core::linting::{LintGroup, Linter};
-use harper_core::parsers::{Markdown, PlainEnglish};
+use harper_core::parsers::{CollapseIdentifiers, Markdown, MarkdownOptions, PlainEnglish};
 use harper_core::{Dialect, Dictionary, Document, FstDictionary, MergedDictionary, MutableDictionary, WordId, WordMetadata};
 use hv::common::*;
 use lsclient::*;
@@ -411,6 +411,98 @@ fn word_tokens(lang: &str, text: &str) -> Tokens {
     t
 }
 
+// ---- source-code documents (goal: identifier dictionaries in the per-document state; Coq: Model/C07Ident.v) ----
+const SRC_LANGS: &[&str] = &["rust", "python", "c"];
+fn is_src_lang(lang: &str) -> bool {
+    harper_comments::CommentParser::new_from_language_id(lang, MarkdownOptions::default()).is_some()
+}
+/// the words of create_ident_dict(text): what update_document merges behind [curated; user; file]
+fn ident_words(lang: &str, text: &str) -> Vec<String> {
+    let src: Vec<char> = text.chars().collect();
+    harper_comments::CommentParser::new_from_language_id(lang, MarkdownOptions::default())
+        .and_then(|p| p.create_ident_dict(&src))
+        .map(|d| words_of(&d))
+        .unwrap_or_default()
+}
+fn mutable_of(ws: &[String]) -> MutableDictionary {
+    let mut d = MutableDictionary::new();
+    d.extend_words(ws.iter().map(|w| (w.chars().collect::<Vec<char>>(), WordMetadata::default())));
+    d
+}
+/// [curated; extra children..]
+fn merged_with(children: Vec<MutableDictionary>) -> Arc<MergedDictionary> {
+    let mut m = MergedDictionary::new();
+    m.add_dictionary(FstDictionary::curated());
+    for c in children {
+        m.add_dictionary(Arc::new(c));
+    }
+    Arc::new(m)
+}
+fn src_document(lang: &str, text: &str, dict: &Arc<MergedDictionary>) -> Document {
+    let inner = harper_comments::CommentParser::new_from_language_id(lang, MarkdownOptions::default()).expect("source language");
+    let d: Arc<dyn Dictionary> = dict.clone();
+    let parser = CollapseIdentifiers::new(Box::new(inner), Box::new(d));
+    Document::new(text, &parser, dict.as_ref())
+}
+fn tokens_of_doc(doc: &Document, text: &str) -> Tokens {
+    let src: Vec<char> = text.chars().collect();
+    let mut t = Tokens { words: vec![], ranges: vec![], spans: vec![] };
+    for tok in doc.tokens() {
+        if tok.kind.is_word() {
+            let (a, b) = (tok.span.start, tok.span.end);
+            if a <= b && b <= src.len() {
+                t.words.push(src[a..b].iter().collect());
+                let (l0, c0) = pos_of(&src, a);
+                let (l1, c1) = pos_of(&src, b);
+                t.ranges.push((l0, c0, l1, c1));
+                t.spans.push((a, b));
+            }
+        }
+    }
+    t
+}
+/// lints of a source text with [curated; identifiers] only (no added words), straight from harper-core
+fn baseline_lints_src(lang: &str, text: &str, ids: &[String]) -> Vec<(Diag, bool)> {
+    let dict = merged_with(vec![mutable_of(ids)]);
+    let doc = src_document(lang, text, &dict);
+    let mut group = LintGroup::new_curated(dict.clone(), Dialect::American);
+    group.config.fill_with_curated();
+    let src: Vec<char> = text.chars().collect();
+    group
+        .lint(&doc)
+        .into_iter()
+        .map(|l| {
+            let (l0, c0) = pos_of(&src, l.span.start);
+            let (l1, c1) = pos_of(&src, l.span.end);
+            (((l0, c0, l1, c1), l.message.clone()), l.lint_kind.is_spelling())
+        })
+        .collect()
+}
+/// a source text: the prose as comment lines, then one definition per identifier
+fn to_source(lang: &str, prose: &str, idents: &[String]) -> String {
+    let marker = match lang {
+        "python" => "#",
+        _ => "//",
+    };
+    let mut s = String::new();
+    for l in prose.split('\n') {
+        s.push_str(marker);
+        if !l.is_empty() {
+            s.push(' ');
+            s.push_str(l);
+        }
+        s.push('\n');
+    }
+    for id in idents {
+        match lang {
+            "python" => s.push_str(&format!("def {id}():\n    pass\n")),
+            "c" => s.push_str(&format!("int {id}(void) {{ return 0; }}\n")),
+            _ => s.push_str(&format!("fn {id}() {{}}\n")),
+        }
+    }
+    s
+}
+
 type Diag = ((u64, u64, u64, u64), String);
 fn diags_of(v: &Value) -> Vec<Diag> {
     let mut out = vec![];
@@ -565,6 +657,132 @@ fn crash_child(user: &str, fd: &str, stats: &str, scope: &str, uri: &str, word: 
     Some(!status.success())
 }
 
+/// Run the add in a child under `strace -f -y` WITHOUT injection and return the system calls that touch `<dict>.tmp`, in
+/// the order in which they were entered: o = openat(.., O_CREAT..), w = write, s = fsync/fdatasync, r = rename.
+fn trace_child(user: &str, fd: &str, stats: &str, scope: &str, uri: &str, word: &str, tmp_path: &str, log: &Path) -> Option<Vec<char>> {
+    use std::io::{Read, Write};
+    use std::process::{Command, Stdio};
+    let exe = std::env::current_exe().ok()?;
+    let mut child = Command::new(exe)
+        .args(["child-add", user, fd, stats, scope, uri, &hexs(word)])
+        .stdin(Stdio::piped())
+        .stdout(Stdio::piped())
+        .stderr(Stdio::null())
+        .spawn()
+        .ok()?;
+    let mut b = [0u8; 1];
+    if child.stdout.as_mut()?.read_exact(&mut b).is_err() {
+        let _ = child.kill();
+        let _ = child.wait();
+        return None;
+    }
+    let pid = child.id();
+    let tracer = Command::new("strace")
+        .args(["-f", "-qq", "-y", "-s", "0", "-o", log.to_str()?, "-p", &pid.to_string(), "-e", "trace=open,openat,creat,write,pwrite64,writev,fsync,fdatasync,rename,renameat,renameat2"])
+        .stdin(Stdio::null())
+        .stdout(Stdio::null())
+        .stderr(Stdio::null())
+        .spawn();
+    let Ok(mut tracer) = tracer else {
+        let _ = child.kill();
+        let _ = child.wait();
+        return None;
+    };
+    let mut attached = false;
+    for _ in 0..1000 {
+        if tracer_pid(pid) != 0 {
+            attached = true;
+            break;
+        }
+        std::thread::sleep(std::time::Duration::from_millis(2));
+    }
+    if !attached {
+        let _ = child.kill();
+        let _ = child.wait();
+        let _ = tracer.kill();
+        let _ = tracer.wait();
+        return None;
+    }
+    std::thread::sleep(std::time::Duration::from_millis(30));
+    if let Some(mut si) = child.stdin.take() {
+        let _ = si.write_all(b"g");
+    }
+    let status = child.wait().ok()?;
+    let _ = tracer.wait();
+    if !status.success() {
+        return None;
+    }
+    let text = std::fs::read_to_string(log).ok()?;
+    let mut out = vec![];
+    for l in text.lines() {
+        if !l.contains(tmp_path) || l.contains(" resumed>") {
+            continue;
+        }
+        let call = l.split_whitespace().nth(1).unwrap_or("");
+        let name = call.split('(').next().unwrap_or("");
+        match name {
+            "open" | "openat" | "creat" => out.push('o'),
+            "write" | "pwrite64" | "writev" => out.push('w'),
+            "fsync" | "fdatasync" => out.push('s'),
+            "rename" | "renameat" | "renameat2" => out.push('r'),
+            _ => {}
+        }
+    }
+    Some(out)
+}
+/// open, one or more writes, ONE fsync, the rename, nothing after it (Coq: C07Power.x_order_ok; C07_power_order)
+fn order_ok(t: &[char]) -> bool {
+    let s: String = t.iter().collect();
+    let Some(rest) = s.strip_prefix('o') else { return false };
+    let w = rest.chars().take_while(|c| *c == 'w').count();
+    w >= 1 && &rest[w..] == "sr"
+}
+/// S: the system calls of one real save_dict (power-loss model: the data of <name>.tmp is durable before the rename)
+fn run_order(cx: &mut Cx, rep: &mut Report, seed_words: usize, word: &str, file_scope: bool, origin: &str) {
+    rep.eval();
+    let dir = cx.fresh_dir();
+    let d = dir.to_str().unwrap().to_string();
+    let user = format!("{d}/cfg/user.txt");
+    let fd = format!("{d}/fd");
+    let stats = format!("{d}/stats.txt");
+    let doc = format!("{d}/docs/a.txt");
+    let _ = std::fs::create_dir_all(format!("{d}/docs"));
+    let _ = std::fs::write(&doc, "text");
+    let url = Url::from_file_path(&doc).unwrap();
+    let target = if file_scope { Path::new(&fd).join(file_dict_name(&url).unwrap()) } else { PathBuf::from(&user) };
+    let seed: Vec<String> = (0..seed_words).map(|i| format!("w{}x{}", i, "qz".repeat(1 + i % 4))).collect();
+    if !seed.is_empty() {
+        let _ = cx.rt.block_on(save_dict(&target, mutable_of(&seed)));
+    }
+    let tmp = format!("{}.tmp", target.to_str().unwrap());
+    let log = dir.join("strace.log");
+    let inp = json!({"kind": "order", "seed_words": seed_words, "word": word, "file": file_scope, "origin": origin});
+    match trace_child(&user, &fd, &stats, if file_scope { "file" } else { "user" }, url.as_str(), word, &tmp, &log) {
+        None => rep.monitor("strace_unavailable", 1),
+        Some(t) => {
+            let enc: Vec<&str> = t.iter().map(|c| match c { 'o' => "o", 'w' => "w", 's' => "s", _ => "r" }).collect();
+            rep.case(&format!("S {}", enc.join(" ")), "1");
+            rep.nontrivial(&format!("order {seed_words} {word} {file_scope}"));
+            rep.count(&format!("order:{}_write_calls", t.iter().filter(|c| **c == 'w').count().min(4)));
+            rep.monitor("syscall_order:saves_traced", 1);
+            // the word must be there afterwards (the trace is that of a save that worked)
+            let now = cx.rt.block_on(load_dict(&target)).map(|d| words_of(&d)).unwrap_or_default();
+            if !now.iter().any(|w| w == word) {
+                rep.fail("reload", format!("the traced add of {:?} did not reach the dictionary file", word), inp.clone());
+            }
+            if !order_ok(&t) {
+                rep.monitor("syscall_order:violations", 1);
+                rep.fail(
+                    "syscall-order",
+                    format!("save_dict's system calls on <name>.tmp were {:?}; expected open, write+, fsync, rename: without the fsync before the rename a power loss can leave an empty or partial dictionary (Coq: C07_power_nosync_refuted)", enc.join(" ")),
+                    inp,
+                );
+            }
+        }
+    }
+    let _ = std::fs::remove_dir_all(&dir);
+}
+
 struct Expect {
     /// target key ("user" or the file's normalised path) -> words added so far, in order
     added: BTreeMap<String, Vec<String>>,
@@ -638,6 +856,26 @@ fn run_hist(cx: &mut Cx, rep: &mut Report, h: &Hist, origin: &str) {
     let mut n_lints = 0;
     let mut n_adds = 0;
     let mut crashed = false;
+    let src_lang = is_src_lang(&h.lang);
+    // the text each open document was last checked with (the copy on disk the add commands re-read)
+    let mut last_text: BTreeMap<usize, String> = BTreeMap::new();
+    // the update_document_from_file an add command makes for the document it was given, if that document is open
+    // (an untitled: url has no file; a document that is not open is dropped again): model op `u`
+    let hidden_update = |ui: usize, opened: &BTreeSet<usize>, last_text: &BTreeMap<usize, String>, chars: &mut BTreeSet<char>| -> Option<String> {
+        if !opened.contains(&ui) || urls.get(ui).map(|u| u.path.is_none()).unwrap_or(true) {
+            return None;
+        }
+        let text = last_text.get(&ui)?;
+        if src_lang {
+            let ids = ident_words(&h.lang, text);
+            for i in &ids {
+                chars.extend(i.chars());
+            }
+            Some(format!("u {} : S : {}", ui, words_field(&ids)))
+        } else {
+            Some(format!("u {} : P", ui))
+        }
+    };
 
     for (oi, op) in h.ops.iter().enumerate() {
         match op {
@@ -693,6 +931,13 @@ fn run_hist(cx: &mut Cx, rep: &mut Report, h: &Hist, origin: &str) {
                         add_log.push((oi, k, w.clone()));
                     }
                 }
+                for (sc, _, _) in &todo {
+                    let ui = match sc { Scope::User => 0usize, Scope::File(i) => *i };
+                    if let Some(u) = hidden_update(ui, &opened, &last_text, &mut chars) {
+                        case_ops.push(u);
+                        impl_ops.push("u".into());
+                    }
+                }
             }
             Op::Add(sc, w) => {
                 let Some(ui) = (match sc { Scope::User => Some(0usize), Scope::File(i) => Some(*i) }) else { continue };
@@ -722,6 +967,11 @@ fn run_hist(cx: &mut Cx, rep: &mut Report, h: &Hist, origin: &str) {
                     add_log.push((oi, k, w.clone()));
                 } else {
                     rep.count("hist:add_to_file_dict_of_untitled_document(dropped by the server)");
+                }
+                if let Some(u) = hidden_update(ui, &opened, &last_text, &mut chars) {
+                    case_ops.push(u);
+                    impl_ops.push("u".into());
+                    rep.count("hist:add_re-reads_an_open_document(update_document_from_file)");
                 }
             }
             Op::Seed(..) | Op::Raw(..) => {
@@ -797,7 +1047,21 @@ fn run_hist(cx: &mut Cx, rep: &mut Report, h: &Hist, origin: &str) {
                     rep.monitor("published_for_other_uri", 1);
                 }
                 let ds = diags_of(&pd);
-                let toks = word_tokens(&h.lang, text);
+                last_text.insert(*ui, text.clone());
+                // a source document: its identifiers, and the Word tokens of its comments as the real parser chain
+                // (CommentParser under CollapseIdentifiers) yields them with [curated; user; file; identifiers] loaded now
+                let ids: Vec<String> = if src_lang { ident_words(&h.lang, text) } else { vec![] };
+                let toks = if src_lang {
+                    let load = |p: Option<PathBuf>| -> MutableDictionary { p.and_then(|p| cx.rt.block_on(load_dict(&p)).ok()).unwrap_or_else(MutableDictionary::new) };
+                    let now = merged_with(vec![load(Some(PathBuf::from(&user))), load(dict_path(&Scope::File(*ui))), mutable_of(&ids)]);
+                    tokens_of_doc(&src_document(&h.lang, text, &now), text)
+                } else {
+                    word_tokens(&h.lang, text)
+                };
+                for i in &ids {
+                    chars.extend(i.chars());
+                    cx.note_id(i);
+                }
                 let flags: Vec<bool> = toks.ranges.iter().map(|r| ds.iter().any(|(dr, m)| dr == r && is_spelling_msg(m))).collect();
                 let unmatched = ds.iter().filter(|(dr, m)| is_spelling_msg(m) && !toks.ranges.contains(dr)).count();
                 if unmatched > 0 {
@@ -808,11 +1072,18 @@ fn run_hist(cx: &mut Cx, rep: &mut Report, h: &Hist, origin: &str) {
                     allwords.insert(w.clone());
                     cx.note_id(w);
                 }
-                case_ops.push(format!("l {} : {}", ui, words_field(&toks.words)));
+                if src_lang {
+                    case_ops.push(format!("c {} : {} : {}", ui, words_field(&ids), words_field(&toks.words)));
+                    rep.count("hist:check_of_a_source_document");
+                    rep.count(&format!("ident:{}_identifiers", ids.len().min(4)));
+                } else {
+                    case_ops.push(format!("l {} : {}", ui, words_field(&toks.words)));
+                }
                 impl_ops.push(show_flags(&flags));
                 n_lints += 1;
                 // ---------------- oracle: the property text on this check ----------------
-                let base = baseline_lints(cx, &h.lang, text);
+                // (a source document: harper-core alone = [curated; identifiers of the text], no added words)
+                let base = if src_lang { baseline_lints_src(&h.lang, text, &ids) } else { baseline_lints(cx, &h.lang, text) };
                 let my_key = u.file_key.clone();
                 let in_scope: Vec<(usize, &String)> = add_log.iter().filter(|(_, k, _)| k == "user" || *k == my_key).map(|(i, _, w)| (*i, w)).collect();
                 let out_scope: Vec<&String> = add_log.iter().filter(|(_, k, _)| !(k == "user" || *k == my_key)).map(|(_, _, w)| w).collect();
@@ -859,8 +1130,19 @@ fn run_hist(cx: &mut Cx, rep: &mut Report, h: &Hist, origin: &str) {
                         rep.count("oracle:token_is_case_variant_of_added_word(unconstrained)");
                     } else {
                         rep.count("oracle:other_token");
+                        let is_ident = ids.iter().any(|i| real_id(i) == real_id(t));
+                        if is_ident {
+                            rep.count("oracle:token_is_identifier_of_the_document");
+                        }
                         if flagged != base_flag {
-                            if out_scope.iter().any(|w| real_id(w) == real_id(t)) {
+                            if is_ident {
+                                // no identifier is lost by an add (Coq: C07_ident_check, C07_ident_kept)
+                                rep.fail(
+                                    "identifier-reported",
+                                    format!("{:?} is an identifier of the source document {} and its report changed ({} -> {}) in the check (op {oi}) after {} add(s): the identifiers were not merged into the dictionary again", t, h.urls[*ui], base_flag, flagged, add_log.len()),
+                                    inp.clone(),
+                                );
+                            } else if out_scope.iter().any(|w| real_id(w) == real_id(t)) {
                                 let involved: Vec<String> = add_log.iter().filter(|(_, k, w)| !(k == "user" || *k == my_key) && real_id(w) == real_id(t)).map(|(_, k, _)| name_of_key(k)).collect();
                                 rep.fail(
                                     "file-scope-leak",
@@ -1377,7 +1659,13 @@ fn gen_hist(r: &mut Rng, crash: bool, malformed: bool) -> Hist {
             urls.push(u);
         }
     }
-    let lang = if r.chance(1, 6) { "markdown" } else { "plaintext" }.to_string();
+    let lang = if r.chance(1, 6) {
+        "markdown".to_string()
+    } else if r.chance(3, 10) {
+        r.s(SRC_LANGS).to_string()
+    } else {
+        "plaintext".to_string()
+    };
     let mut ops = vec![];
     let mut pool = pool;
     if r.chance(1, 4) {
@@ -1456,6 +1744,46 @@ fn gen_hist(r: &mut Rng, crash: bool, malformed: bool) -> Hist {
     let t = pool.join(" ");
     for ui in 0..urls.len() {
         ops.push(Op::Lint(ui, t.clone()));
+    }
+    if SRC_LANGS.contains(&lang.as_str()) {
+        // source documents: the prose becomes comment lines; each document defines a few identifiers (snake_case pairs of
+        // made-up stems, single stems, sometimes a pool word or a case variant of one) with pairwise different ids, some of
+        // them mentioned in the comments; now and then a check comes with one identifier more or less
+        let mut idents: Vec<Vec<String>> = vec![];
+        for _ in 0..urls.len() {
+            let mut v: Vec<String> = vec![];
+            for _ in 0..r.range(0, 3) {
+                let cand = match r.below(5) {
+                    0 | 1 => format!("{}_{}", made_up(r), made_up(r)),
+                    2 => made_up(r),
+                    3 => pool[r.below(pool.len())].clone(),
+                    _ => capitalize(&pool[r.below(pool.len())]),
+                };
+                let ok = !cand.is_empty() && cand.chars().all(|c| c.is_ascii_alphanumeric() || c == '_') && cand.chars().next().map(|c| c.is_ascii_alphabetic()).unwrap_or(false);
+                if ok && !v.iter().any(|x| real_id(x) == real_id(&cand)) {
+                    v.push(cand);
+                }
+            }
+            idents.push(v);
+        }
+        for op in ops.iter_mut() {
+            if let Op::Lint(ui, t) = op {
+                let mut ids = idents[*ui].clone();
+                if r.chance(1, 5) && !ids.is_empty() {
+                    ids.remove(r.below(ids.len()));
+                } else if r.chance(1, 6) {
+                    let extra = made_up(r);
+                    if !ids.iter().any(|x| real_id(x) == real_id(&extra)) {
+                        ids.push(extra);
+                    }
+                }
+                let mut prose = t.clone();
+                if !idents[*ui].is_empty() && r.chance(2, 3) {
+                    prose.push_str(&format!("\nIt calls {} twice.", idents[*ui][r.below(idents[*ui].len())]));
+                }
+                *t = to_source(&lang, &prose, &ids);
+            }
+        }
     }
     Hist { lang, urls, ops }
 }
@@ -1677,6 +2005,7 @@ fn run_input(cx: &mut Cx, rep: &mut Report, v: &Value, origin: &str) {
                 run_hist(cx, rep, &h, origin)
             }
         }
+        "order" => run_order(cx, rep, v["seed_words"].as_u64().unwrap_or(2) as usize, v["word"].as_str().unwrap_or("gamma"), v["file"].as_bool().unwrap_or(false), origin),
         "stale-linter" => probe_stale(cx, rep, v["rounds"].as_u64().unwrap_or(40), origin),
         "par-same" => probe_par_same(cx, rep, v["rounds"].as_u64().unwrap_or(5), origin),
         "merge" => {
@@ -1797,6 +2126,16 @@ fn main() {
                     run_hist(&mut cx, &mut rep, &h, "sweep-crash");
                 }
             }
+        }
+        // S: system-call order of real saves: empty / small / larger-than-BufWriter dictionaries, user and file scope
+        for (k, w, f) in [(0usize, "gamma", false), (2, "gamma", false), (3, "žluťoučký", true), (1500, "gamma", false), (1500, "delta", true)] {
+            run_order(&mut cx, &mut rep, k, w, f, "sweep-order");
+        }
+        for _ in 0..args.scale(3, 30) {
+            let k = r.range(0, 40);
+            let w = made_up(&mut r);
+            let f = r.chance(1, 2);
+            run_order(&mut cx, &mut rep, k, &w, f, "gen-order");
         }
         for i in 0..args.scale(60, 600) {
             let ops = gen_wasm(&mut r, i % 5 == 4);
